@@ -1,0 +1,9 @@
+//go:build !verif
+
+package core
+
+type verifState struct{}
+
+func (*JApiCore) verifPasteEnter() {}
+
+func (*JApiCore) verifPasteLeave() {}
